@@ -29,7 +29,13 @@ func c08One(out *hx.Out, kind string, compat bool, size uint64, ids []string, ca
 // c08OneR: with restart, the hub is stopped and a new one opened on the same history file before the subscription.
 func c08OneR(out *hx.Out, kind string, compat bool, size uint64, ids []string, car c08Carrier, restart bool, tags ...string) error {
 	dir := hx.WorkDir()
-	t, p := hx.NewTransport(kind, dir, size, 1)
+	// half of the size-limited histories are never cleaned up (cleanup frequency 0): more than size updates stay retained
+	freq := 1.0
+	if size > 0 && len(ids)%2 == 0 {
+		freq = 0
+		tags = append(tags, "never-cleaned")
+	}
+	t, p := hx.NewTransport(kind, dir, size, freq)
 	opts := []mercure.Option{mercure.WithAnonymous()}
 	if compat {
 		opts = append(opts, mercure.WithProtocolVersionCompatibility(7))
@@ -46,7 +52,7 @@ func c08OneR(out *hx.Out, kind string, compat bool, size uint64, ids []string, c
 		if err := env.Hub.Stop(); err != nil {
 			return err
 		}
-		t2, err := mercure.NewBoltTransport(hx.Logger, p, "", size, 1)
+		t2, err := mercure.NewBoltTransport(hx.Logger, p, "", size, freq)
 		if err != nil {
 			return err
 		}
@@ -56,7 +62,11 @@ func c08OneR(out *hx.Out, kind string, compat bool, size uint64, ids []string, c
 	}
 	var history []string
 	if kind == "bolt" {
-		history = hx.Retained(t)
+		// read from a copy of the file with bbolt directly: independent of the replay path under test
+		var err error
+		if history, err = hx.BoltIDsOfCopy(p); err != nil {
+			return err
+		}
 	}
 	q := url.Values{"topic": {"*"}}
 	hdr := http.Header{}
